@@ -94,7 +94,9 @@ def _case(draw):
         n = draw(st.integers(1, 5))
         idents = []
         for i in range(n):
-            idents.append(f"m{v}{i}" if draw(st.integers(0, 3)) != 0 else None)
+            k = draw(st.integers(0, 5))
+            # (some identities end in the letters of ':to' / ':from')
+            idents.append(None if k == 0 else (f"m{v}{i}" if k < 4 else ["ditto", "form", "room", "first", "photo"][i] + ["", "_to", "_from"][v]))
         versions.append([draw(_member(table, idents[i])) for i in range(n)])
     big = [v for v in versions if len(v) >= 2]
     if big and draw(st.integers(0, 2)) == 0:
